@@ -26,7 +26,17 @@ pub(crate) fn synthesize_expr(
     target_width: usize,
 ) -> Result<Vec<NetId>, SynthesizerError> {
     if let Some(constant) = try_constant(expr) {
-        return Ok(build_constant(constant, target_width));
+        // Materialise the constant at its own width first: a signed literal
+        // (`4'sb1110`) narrower than the context extends with its sign bit.
+        let own = expr
+            .comptime()
+            .r#type
+            .total_width()
+            .filter(|w| *w > 0 && *w < target_width);
+        return Ok(match own {
+            Some(w) if expr_signed(expr) => resize(build_constant(constant, w), target_width, true),
+            _ => build_constant(constant, target_width),
+        });
     }
 
     let raw = synth_raw(ctx, expr, current, target_width)?;
